@@ -91,8 +91,9 @@ Theorem C06_unwrap_scalar_refuted :
                       /\ parse_json out = Ok (JInt 123) /\ v = JStr (str_of_string "123")).
 Proof.
   split.
-  - exists (NScalar t_str [97; 34; 98]). eexists. split; vm_compute; reflexivity.
-  - exists (NScalar t_str (str_of_string "123")). eexists. eexists. vm_compute. repeat split.
+  - exists (NScalar t_str [97; 34; 98]), [97; 34; 98; 10]. split; vm_compute; reflexivity.
+  - exists (NScalar t_str (str_of_string "123")), (str_of_string "123" ++ [10])%list, (JStr (str_of_string "123")).
+    repeat split; vm_compute; reflexivity.
 Qed.
 Print Assumptions C06_unwrap_scalar_refuted.
 
@@ -103,11 +104,13 @@ Example C06_example :
                                                   NScalar t_bool (str_of_string "Yes");
                                                   NScalar t_null (str_of_string "~"); NSeq []; NMap [] ]) ] in
   yq_encode no_float 0 false doc
-  = Ok (str_of_string "{""k\""1"":[31,""\""\n\u0001 " ++ [240; 159; 152; 128] ++ str_of_string """,true,null,[],{}]}" ++ [10])%list
+  = Ok (str_of_string "{""k\""1"":[31,""\""\n\u0001\u2028" ++ [240; 159; 152; 128] ++ str_of_string """,true,null,[],{}]}" ++ [10])%list
   /\ (exists v, to_json no_float doc = Ok v /\ rt_domain v = true /\ floats_ok jnumber v
                 /\ parse_json (enc_top 7 v) = Ok v).
 Proof.
   cbv zeta. split; [vm_compute; reflexivity|].
-  eexists. split; [vm_compute; reflexivity|]. split; [vm_compute; reflexivity|].
+  exists (JObj [ (str_of_string "k""1", JArr [ JInt 31; JStr [34; 10; 1; 226; 128; 168; 240; 159; 152; 128];
+                                               JBool true; JNull; JArr []; JObj [] ]) ]).
+  split; [vm_compute; reflexivity|]. split; [vm_compute; reflexivity|].
   split; [cbn; tauto|vm_compute; reflexivity].
 Qed.
